@@ -14,7 +14,7 @@ import re
 
 import vlib
 
-REPO = os.environ.get("VERIF_REPO", "/repo")
+REPO = os.environ.get("VERIF_REPO") or vlib.repo_root()
 RT = os.path.join(REPO, "crates", "trust-runtime", "src")
 GENERATED = os.path.join(vlib.LEAN, "TrustVerif", "Generated", "Control.lean")
 TABLES = os.path.join(vlib.WORK, "C18.tables.json")
